@@ -983,6 +983,7 @@ pub fn run_check(spec: &Spec, tier: Tier, seed: u64, threads: usize, verif_dir: 
                 Ok(c) => c,
                 Err(_) => continue,
             };
+            let subname = subname.rsplit(':').next().unwrap_or(subname);
             let sub = spec.subs.iter().find(|s| s.name == subname).or(spec.subs.first());
             if let Some(sub) = sub {
                 regressions += 1;
@@ -1001,6 +1002,9 @@ pub fn run_check(spec: &Spec, tier: Tier, seed: u64, threads: usize, verif_dir: 
     }
 
     for sub in &spec.subs {
+        if std::env::var("MTV_ONLY_FUZZ").is_ok() {
+            break;
+        }
         if let Some(o) = only_sub {
             if o != sub.name {
                 continue;
@@ -1048,10 +1052,63 @@ pub fn run_check(spec: &Spec, tier: Tier, seed: u64, threads: usize, verif_dir: 
         total.merge(acc.stats);
     }
 
+    // thorough tier: bounded coverage-guided campaigns with the same oracles inside the targets
+    let mut fuzz_report = json!(null);
+    let mut fuzz_inconclusive: Vec<String> = Vec::new();
+    if tier == Tier::Thorough && only_sub.is_none() && std::env::var("MTV_NO_FUZZ").is_err() {
+        let out = crate::fuzzdrv::campaign(spec.id, seed, verif_dir);
+        total.evaluations += out.executions;
+        total.class("libfuzzer-executions");
+        *total.classes.get_mut("libfuzzer-executions").unwrap() = out.executions;
+        fuzz_report = out.report;
+        fuzz_inconclusive = out.inconclusive;
+        eprintln!("[{} libFuzzer] {} executions, {} oracle failures, {} inconclusive jobs", spec.id, out.executions, out.failures.len(), fuzz_inconclusive.len());
+        let mut seen = false;
+        for (path, case, f) in out.failures {
+            if known.matches(&f).is_some() {
+                *known_hits.entry(format!("property={} {}", f.property, f.sig)).or_insert(0) += 1;
+                continue;
+            }
+            if seen {
+                continue; // one shrunk report per campaign is enough
+            }
+            seen = true;
+            // shrink through the replay runner of the matching sub-check (in a child process)
+            let subname = path.rsplit('/').next().unwrap_or("").to_string();
+            let which = if f.kind == "panic" && spec.id == "C01" { 0 } else { 0 };
+            let _ = which;
+            let sub = spec.subs.iter().find(|s| subname.contains(s.name)).or(spec.subs.first());
+            let (c2, f2) = match sub {
+                Some(sub) => {
+                    let replay = sub.replay.clone();
+                    let (id2, known2, case2) = (spec.id.to_string(), known.clone(), case.clone());
+                    let fclone = f.clone();
+                    let w = move |_w: usize| -> Vec<AccOut> {
+                        let (c, fl) = shrink_case_budget(&case2, &replay, &id2, &known2, 1500);
+                        let keep = if fl.kind == "flaky" { (case2.clone(), fclone.clone()) } else { (c, fl) };
+                        vec![AccOut { index: 0, stats: Stats::default(), failure: Some(keep), known_hits: BTreeMap::new() }]
+                    };
+                    let mut r = None;
+                    for e in fork_workers(1, 600, 900, false, &w) {
+                        if let WorkerEnd::Done(mut v) = e {
+                            r = v.pop().and_then(|o| o.failure);
+                        }
+                    }
+                    r.unwrap_or((case.clone(), f.clone()))
+                }
+                None => (case.clone(), f.clone()),
+            };
+            let p2 = write_replay(&format!("{}/replays", verif_dir), spec.id, "gen-history", &c2, &f2, seed);
+            let p2 = if sub.is_some() { p2 } else { path.clone() };
+            say(&format!("{} [libFuzzer] {} at step {} ({}): {}\n  minimal case: {}", spec.id, f2.kind, f2.step, f2.op, f2.detail, c2.pretty()));
+            violations.push((p2, f2.detail.clone()));
+        }
+    }
+
     for (k, n) in &known_hits {
         say(&format!("KNOWN-FINDING: {} (hit {} times)", k, n));
     }
-    let harness_problem = total.excluded.keys().any(|k| k.contains("(harness)"));
+    let harness_problem = !fuzz_inconclusive.is_empty() || total.excluded.keys().any(|k| k.contains("(harness)"));
     let wall = t0.elapsed().as_secs_f64();
     write_evidence(
         &format!("{}/evidence/{}.json", verif_dir, spec.id),
@@ -1064,7 +1121,7 @@ pub fn run_check(spec: &Spec, tier: Tier, seed: u64, threads: usize, verif_dir: 
         regressions,
         violations.len() as u64,
         wall,
-        json!({}),
+        json!({ "libfuzzer": fuzz_report, "libfuzzer_inconclusive": fuzz_inconclusive }),
     );
     for (path, _) in &violations {
         say(&format!("VIOLATION property={} replay={}", spec.id, path));
@@ -1072,7 +1129,10 @@ pub fn run_check(spec: &Spec, tier: Tier, seed: u64, threads: usize, verif_dir: 
     if !violations.is_empty() {
         1
     } else if harness_problem {
-        say("harness problem: a worker thread of the harness itself panicked (exit 2, not a violation)");
+        for l in &fuzz_inconclusive {
+            say(&format!("inconclusive: {}", l));
+        }
+        say("harness / infrastructure problem or inconclusive run (exit 2, not a violation)");
         2
     } else {
         say(&format!(
